@@ -41,6 +41,7 @@ type Spec struct {
 	ExpVals    []*V   `json:"exp_vals,omitempty"`
 	ExpIdx     int    `json:"exp_idx,omitempty"`
 	Signature  string `json:"signature,omitempty"` // harness-computed canonical signature (documentation in replay files)
+	Lenient    bool   `json:"lenient,omitempty"` // event: not an EVM log of this event; a refusal is not compared
 	Key        string `json:"key,omitempty"`
 	Observed   string `json:"observed,omitempty"`
 	Describe   string `json:"describe,omitempty"`
@@ -211,8 +212,8 @@ func runEvent(s *Spec, st *cv.Stats) string {
 	s.Signature = s.Entry.Sig()
 	s.Observed = fmt.Sprintf("class=%d children=[%s] %s", c, strings.Join(desc, "; "), msg)
 	st.Hit(fmt.Sprintf("event:%s:class=%d", s.Class, c))
-	return fmt.Sprintf("CEvent %s %s %s %d [%s] %s", s.Entry.Coq(), topicsCoq(s.Topics), cv.Compress(s.Data).Coq(), c,
-		strings.Join(outs, "; "), expectCoqEvent(s))
+	return fmt.Sprintf("CEvent %s %s %s %d [%s] %s %v", s.Entry.Coq(), topicsCoq(s.Topics), cv.Compress(s.Data).Coq(), c,
+		strings.Join(outs, "; "), expectCoqEvent(s), !s.Lenient)
 }
 
 // the serializer pipeline FormatErrorStringCtx uses, called directly (codec oracle of the model)
